@@ -302,8 +302,8 @@ func (s *session) inject(in Inj) {
 				break
 			}
 		}
-		s.mu.Unlock()
 		if w == nil {
+			s.mu.Unlock()
 			s.rec.add("skip", "kind", in.K, "why", "no open retrieval")
 			return
 		}
@@ -311,8 +311,8 @@ func (s *session) inject(in Inj) {
 		if in.K == "change_err" {
 			err = errors.New("scripted watch error")
 		}
+		// logged while s.mu is held: the line precedes the pclose line of the retrieval it comes from
 		s.rec.add("ext", "kind", in.K, "src", src)
-		s.mu.Lock()
 		if in.K == "change" {
 			s.expectGen++
 		} else {
@@ -345,25 +345,32 @@ func (s *session) inject(in Inj) {
 		for k := s.gen; k >= 1 && host == nil; k-- {
 			if c := s.comps[key("c", k, in.C)]; c != nil {
 				c.mu.Lock()
-				if c.host != nil && !c.stopped {
+				started := c.host != nil
+				if _, ok := c.host.(componentstatus.Reporter); started && !ok {
+					// extensions are handed the bare host: componentstatus.ReportStatus does nothing
+					c.mu.Unlock()
+					s.mu.Unlock()
+					s.rec.add("skip", "kind", "fatal", "comp", in.C, "why", "the host given to this component is not a status reporter")
+					return
+				}
+				if started && !c.stopped {
 					host, g = c.host, k
+					seen = make(chan struct{})
+					s.fatalSeen[key("c", g, in.C)] = seen
+					// logged while c.mu is held: the line precedes the component's shutdown_end line
+					s.rec.add("ext", "kind", "fatal", "gen", g, "comp", in.C)
 				}
 				c.mu.Unlock()
-				if c.host != nil {
+				if started {
 					break
 				}
 			}
-		}
-		if host != nil {
-			seen = make(chan struct{})
-			s.fatalSeen[key("c", g, in.C)] = seen
 		}
 		s.mu.Unlock()
 		if host == nil {
 			s.rec.add("skip", "kind", "fatal", "comp", in.C, "why", "component not started or already shut down")
 			return
 		}
-		s.rec.add("ext", "kind", "fatal", "gen", g, "comp", in.C)
 		done := make(chan struct{})
 		go func() {
 			defer close(done)
@@ -476,8 +483,8 @@ func (c *comp) Start(_ context.Context, host component.Host) error {
 	s := c.s
 	c.mu.Lock()
 	c.host = host
-	c.mu.Unlock()
 	s.rec.add("start", "gen", c.gen, "comp", c.name)
+	c.mu.Unlock()
 	s.fire(key("start", c.gen, c.name))
 	s.mu.Lock()
 	bad := s.fail[key("start", c.gen, c.name)]
@@ -498,8 +505,8 @@ func (c *comp) Shutdown(context.Context) error {
 	s.mu.Unlock()
 	c.mu.Lock()
 	c.stopped = true
-	c.mu.Unlock()
 	s.rec.add("shutdown_end", "gen", c.gen, "comp", c.name, "err", bad)
+	c.mu.Unlock()
 	if bad {
 		return errors.New("scripted shutdown failure")
 	}
